@@ -786,6 +786,39 @@ def r_conv(f):
             R.inst(b.ident, "hand-written eq looks at data, num_rows and num_cols of both operands", not miss)
             if miss:
                 R.fail(b.ident, "eq-fields:%s" % ",".join(miss), "%s is hand-written and never looks at %s of both operands: arrays that differ there compare equal" % (b.ident, ", ".join(miss)), b.where())
+            else:
+                # path-wise: wherever the answer is a literal `true`, all three fields of both operands have been looked at on the way
+                # (a shortcut on the buffer's address - equal for all zero-sized / empty buffers - or on one field is not equality)
+                def reads_in(bi_):
+                    got = set()
+                    bl_ = b.blocks[bi_]
+                    for pl in _all_places([bl_["stmts"], bl_["term"]]):
+                        if pl["local"] in (1, 2):
+                            for pe in pl["proj"]:
+                                if pe["k"] == "field":
+                                    got.add((pl["local"], pe["i"])); break
+                    return got
+                IN = {0: set()}
+                work = [0]
+                while work:
+                    x = work.pop()
+                    out = IN[x] | reads_in(x)
+                    for y in b.succs(x):
+                        if b.blocks[y]["cleanup"]:
+                            continue
+                        new_ = out if y not in IN else (IN[y] & out)
+                        if y not in IN or new_ != IN[y]:
+                            IN[y] = set(new_); work.append(y)
+                short = []
+                for bi_, si_, st_ in b.stmts():
+                    if bi_ in IN and st_["k"] == "assign" and st_["p"]["local"] == 0 and not st_["p"]["proj"] and st_["rv"]["k"] == "use" and st_["rv"]["o"]["k"] == "const" and "true" in str(st_["rv"]["o"].get("v", st_["rv"]["o"])):
+                        seen_ = IN[bi_] | reads_in(bi_)
+                        lacking = sorted(nm for nm in three if (1, fidx[nm]) not in seen_ or (2, fidx[nm]) not in seen_)
+                        if lacking:
+                            short.append((st_["span"], lacking))
+                R.inst(b.ident, "hand-written eq answers `true` only after all three fields of both operands were examined", not short)
+                for sp_, lacking in short[:1]:
+                    R.fail(b.ident, "eq-shortcut:%s" % ",".join(lacking), "%s answers `true` on a path that never looked at %s of both operands (an address or single-field shortcut): e.g. all zero-sized or empty buffers share one address, so arrays of different shape compare equal while their hashes differ" % (b.ident, ", ".join(lacking)), b.where(sp_))
         else:
             foreign = sorted({fn["name"] for bb in [b] + b.closures() for _, t, fn in bb.calls() if fn and fn["name"] in ("capacity", "as_ptr", "as_mut_ptr", "addr", "spare_capacity_mut", "type_id")})
             R.inst(b.ident, "hand-written hash feeds only the fields that eq compares", not foreign)
@@ -1020,6 +1053,78 @@ def r_fill(f):
         R.inst(b.ident, "fills the whole backing buffer in one call", ok)
         if not ok:
             R.fail(b.ident, "shape", "TooDee::fill no longer fills the whole buffer", b.where())
+    # an override (or an inherent method that hides the trait method) on the mutable view: the view's backing span also holds
+    # the cells between its rows (cells of the parent outside the view), so filling the span as a whole is only right when the
+    # view is contiguous, and that has to be established by a test that can establish it
+    b = f.get("TooDeeViewMut as TooDeeOpsMut::fill")
+    if b is not None and b.blocks:
+        n += 1
+        d = Dfx(b)
+        ad = [a for a in f.adts if a["id"].split("::")[-1] == "TooDeeViewMut"][0]
+        fi = {x["name"]: i for i, x in enumerate(ad["fields"])}
+        dom = b.dominators()
+
+        def is_self_field(e, name):
+            e = strip(e)
+            return e[0] == "field" and e[2] == fi.get(name) and strip(e[1]) in (("deref", ("param", 1)), ("param", 1))
+
+        def is_span_len(e):
+            e = strip(e)
+            if e[0] in ("len", "ptrmeta") or (e[0] == "un" and e[1] == "PtrMetadata"):
+                return any(is_self_field(x, "data") for x in walk(e))
+            return e[0] == "call" and e[2] == "len" and any(is_self_field(x, "data") for x in walk(e))
+
+        def is_area(e):
+            e = strip(e)
+            return e[0] == "bin" and e[1].startswith("Mul") and ((is_self_field(e[2], "num_cols") and is_self_field(e[3], "num_rows")) or (is_self_field(e[3], "num_cols") and is_self_field(e[2], "num_rows")))
+        verdicts = []
+        for bi, t, fn in b.calls():
+            if not (fn and fn["name"] in ("fill", "fill_with") and "slice" in (fn.get("path") or "") and t["args"]):
+                continue
+            a0 = d.expr(t["args"][0])
+            if not any(is_self_field(x, "data") for x in walk(a0)) or any(x[0] == "call" and x[2] in ("rows_mut", "next", "row_pair_mut") for x in walk(a0) if isinstance(x, tuple) and len(x) > 2):
+                continue
+            sound, lossy, conds = False, False, 0
+            for sb in dom.get(bi, set()):
+                tt = b.blocks[sb]["term"]
+                if sb == bi or not tt or tt["k"] != "switch":
+                    continue
+                succs = [(int(a_), b2) for a_, b2 in tt["targets"]] + [(None, tt["otherwise"])]
+                taken = [(v_, sx) for v_, sx in succs if sx == bi or sx in dom.get(bi, set())]
+                if len(taken) != 1:
+                    continue
+                v_ = taken[0][0]
+                e_ = strip(d.expr(tt["discr"]))
+                neg = False
+                while e_[0] == "un" and e_[1] == "Not":
+                    neg = not neg; e_ = strip(e_[2])
+                if e_[0] != "bin" or e_[1] not in ("Eq", "Ne"):
+                    continue
+                truth = (v_ is None and any(x == 0 for x, _ in succs[:-1])) or (v_ == 1)
+                if neg:
+                    truth = not truth
+                if (e_[1] == "Eq") != truth:
+                    continue
+                l_, r_ = e_[2], e_[3]
+                mentions = any(is_self_field(x, "stride") or is_span_len(x) for o in (l_, r_) for x in walk(o))
+                if not mentions:
+                    continue
+                conds += 1
+                if (is_self_field(l_, "stride") and is_self_field(r_, "num_cols")) or (is_self_field(r_, "stride") and is_self_field(l_, "num_cols")) or (is_span_len(l_) and is_area(r_)) or (is_span_len(r_) and is_area(l_)):
+                    sound = True
+                elif any(isinstance(x, tuple) and x[0] == "bin" and str(x[1]).startswith(("Div", "Rem", "Shr")) for o in (l_, r_) for x in walk(o)):
+                    lossy = True
+            verdicts.append((bi, t, sound, lossy, conds))
+        for bi, t, sound, lossy, conds in verdicts:
+            if sound:
+                R.inst(b.ident, "fills the view's whole span only under `stride == num_cols` / `data.len() == num_cols * num_rows`", True)
+            elif lossy or conds == 0:
+                R.inst(b.ident, "fills the view's whole span only when the view is contiguous", False)
+                R.fail(b.ident, "span-fill:%s" % ("lossy-test" if lossy else "no-test"), "%s fills the view's whole backing span (`self.data.fill(..)`), which also holds the parent's cells between the view's rows, %s: cells outside the view are overwritten" % (b.ident, "under a test built on a rounding division, which also passes for views that are one column narrower than their parent" if lossy else "without first establishing that the view is contiguous (stride == num_cols)"), b.where(t["span"]))
+            else:
+                R.inconc(b.ident, "whole-span fill under a contiguity test that is not one of the recognised forms (undecided)")
+        if not verdicts:
+            R.inst(b.ident, "override of fill never writes the view's span as a whole", True)
     return R, n
 
 
